@@ -9,6 +9,9 @@ import (
 	"sort"
 	"strings"
 
+	"golang.org/x/tools/go/callgraph"
+	"golang.org/x/tools/go/callgraph/cha"
+	"golang.org/x/tools/go/callgraph/vta"
 	"golang.org/x/tools/go/packages"
 	"golang.org/x/tools/go/ssa"
 	"golang.org/x/tools/go/ssa/ssautil"
@@ -29,6 +32,7 @@ type Program struct {
 	// module packages, sorted by position, for deterministic iteration.
 	AllFuncs []*ssa.Function
 	GOARCH   string
+	cg       *callgraph.Graph // VTA call graph, built on first use
 }
 
 // pkgPath maps a short name ("", "m3", "m3/thriftudp") to the import path.
@@ -305,4 +309,41 @@ func (p *Program) fnKey(fn *ssa.Function) string {
 	s = strings.ReplaceAll(s, modPath+".", "tally.")
 	s = strings.ReplaceAll(s, modPath, "tally")
 	return s
+}
+
+// ---- closed-world check on the VTA call graph --------------------------------------------------
+
+// dynamicCallers returns the call sites that may reach fn other than by a static call (interface
+// dispatch, function values, method values, go/defer of values), according to the VTA call graph
+// over the whole program (CHA as the initial graph). Rules that enumerate "all callers" of a
+// function from its static call sites use it to make sure that enumeration is complete.
+func (p *Program) dynamicCallers(fn *ssa.Function) []ssa.CallInstruction {
+	if p.cg == nil {
+		p.cg = vta.CallGraph(ssautil.AllFunctions(p.SSA), cha.CallGraph(p.SSA))
+	}
+	n := p.cg.Nodes[fn]
+	if n == nil {
+		return nil
+	}
+	var out []ssa.CallInstruction
+	for _, e := range n.In {
+		if e.Site == nil {
+			continue
+		}
+		if e.Site.Common().StaticCallee() == fn {
+			continue
+		}
+		// calls made from synthetic wrappers (bound-method thunks, interface method wrappers) are
+		// attributed to the wrapper; follow them back to real callers
+		if e.Caller != nil && e.Caller.Func != nil && e.Caller.Func.Synthetic != "" {
+			for _, e2 := range e.Caller.In {
+				if e2.Site != nil {
+					out = append(out, e2.Site)
+				}
+			}
+			continue
+		}
+		out = append(out, e.Site)
+	}
+	return out
 }
